@@ -312,9 +312,15 @@ func (m *Manager) newStream(ctx context.Context, sid uint64, kind, rpc string) (
 	}
 
 	stream := drpcstream.NewWithOptions(ctx, sid, m.wr, opts)
+
+	// the stream has to be recorded as the latest stream before it is handed
+	// to manageStreams: with soft cancel, a canceled context makes manageStream
+	// release the semaphore right away, and a concurrent NewClientStream must
+	// not compute its stream id from the stream before this one.
+	m.sbuf.Set(stream)
+
 	select {
 	case m.streams <- streamInfo{ctx: ctx, stream: stream}:
-		m.sbuf.Set(stream)
 		m.log("STREAM", stream.String)
 		return stream, nil
 
